@@ -99,6 +99,8 @@ type vfClientStream struct {
 	closeSent bool
 	closed    chan struct{}
 	onSend    func(*vfReq)
+	// when set, the serving side does not end its stream in response to CloseSend (an idle / stalled peer)
+	ignoreCloseSend bool
 }
 
 func newVfClientStream(ctx context.Context) *vfClientStream {
@@ -135,7 +137,9 @@ func (c *vfClientStream) CloseSend() error {
 	defer c.mu.Unlock()
 	if !c.closeSent {
 		c.closeSent = true
-		close(c.closed)
+		if !c.ignoreCloseSend {
+			close(c.closed)
+		}
 	}
 	return nil
 }
@@ -157,12 +161,13 @@ func (c *vfClientStream) isCloseSent() bool {
 // vfAdminClient is the AdminServiceClient the proxy forwards to.
 type vfAdminClient struct {
 	adminservice.AdminServiceClient
-	mu        sync.Mutex
-	streams   []*vfClientStream
-	openErr   error
-	describe  *adminservice.DescribeClusterResponse
-	onOpen    func(*vfClientStream)
-	autoClose bool // every new stream immediately ends with EOF
+	mu              sync.Mutex
+	streams         []*vfClientStream
+	openErr         error
+	describe        *adminservice.DescribeClusterResponse
+	onOpen          func(*vfClientStream)
+	autoClose       bool // every new stream immediately ends with EOF
+	ignoreCloseSend bool
 }
 
 func (a *vfAdminClient) StreamWorkflowReplicationMessages(ctx context.Context, opts ...grpc.CallOption) (adminservice.AdminService_StreamWorkflowReplicationMessagesClient, error) {
@@ -173,6 +178,7 @@ func (a *vfAdminClient) StreamWorkflowReplicationMessages(ctx context.Context, o
 		return nil, err
 	}
 	cs := newVfClientStream(ctx)
+	cs.ignoreCloseSend = a.ignoreCloseSend
 	a.mu.Lock()
 	a.streams = append(a.streams, cs)
 	cb, ac := a.onOpen, a.autoClose
